@@ -140,11 +140,11 @@ class Oracle:
             bobrun.write_files(d, files)
             for sub, fs in srcs.items():
                 bobrun.sync_tree(d, sub, fs)
-            r = bobrun.run_bob(d, ["dev", target] + bobrun.QUERY + [target, target + "//*"], record=False)
+            r = bobrun.run_bob(d, ["dev", target], record=False)
             self.builds += 1
             if r.rc != 0:
                 raise RuntimeError("clean build of oracle failed (rc=%s):\n%s" % (r.rc, r.out[-2000:]))
-            paths = bobrun.parse_query(r.out)
+            paths = bobrun.query_paths(d, target, False)
             res = {}
             for name, ps in paths.items():
                 pkg = name.split("/")[-1]
@@ -183,7 +183,7 @@ class BehaviourReplay:
         c = ["build" if self.release else "dev", "app"]
         if self.jobs > 1:
             c += ["-j", str(self.jobs)]
-        return c + list(extra) + bobrun.QUERY + ["app", "app//*"]
+        return c + list(extra)
 
     def apply(self, proj):
         files, srcs = projgen.render_bobbuild(proj)
@@ -208,7 +208,7 @@ class BehaviourReplay:
         if r.rc != 0:
             self.viol("invocation-failed:" + what, rc=r.rc, out=r.out[-3000:])
             return False
-        paths = bobrun.parse_query(r.out)
+        paths = bobrun.query_paths(self.ws, "app", self.release)
         want = self.oracle.clean(proj)
         ok = True
         for name, ps in paths.items():
@@ -277,7 +277,7 @@ class BehaviourReplay:
                     shutil.rmtree(self.tmp, ignore_errors=True)
                     shutil.copytree(self.ws, self.tmp, symlinks=True)
                     dry = self.invoke(ws=self.tmp)
-                    paths = bobrun.parse_query(dry.out)
+                    paths = bobrun.query_paths(self.tmp, "app", self.release) if dry.rc == 0 else {}
                     paths = {n.split("/")[-1]: v for n, v in paths.items()}
                     shutil.rmtree(self.tmp, ignore_errors=True)
                     if dry.rc != 0:
